@@ -373,9 +373,47 @@ def run_check(tier, seed):
             return Comb(er_all(t.fun, keep_numerals), er_all(t.arg, keep_numerals))
         if t.is_abs():
             return Abs(t.var_name, None, er_all(t.body, keep_numerals))
+        if t.is_svar():
+            return SVar(t.name, None)
         return Bound(t.n) if t.is_bound() else Var(t.name, None)
-    for i in range(80 if tier == 'quick' else 1200):
-        t0, ctx, ill = multi_binder()
+
+    def multi_svar():
+        """The same with schematic variables (undeclared, unannotated, each used several times) in place of bound ones; sometimes an
+        ordinary variable of the same name occurs too."""
+        T = r.choice([natT, intT])
+        plus, times = Const('plus', TFun(T, T, T)), Const('times', TFun(T, T, T))
+        eq, le = Const('equals', TFun(T, T, BoolType)), Const('less_eq', TFun(T, T, BoolType))
+        conj = Const('conj', TFun(BoolType, BoolType, BoolType))
+        n_ = Var('n', T)
+        anchor = n_ if r.random() < 0.7 else Const(r.choice(['zero', 'one']), T)
+        svs = [SVar(nm, T) for nm in r.sample(['a', 'b', 'c'], r.choice([1, 2, 3]))]
+
+        def arith(items):
+            items = list(items)
+            r.shuffle(items)
+            while len(items) > 1:
+                j = r.randrange(len(items) - 1)
+                items[j:j + 2] = [Comb(Comb(r.choice([plus, plus, times]), items[j]), items[j + 1])]
+            return items[0]
+        parts = [Comb(Comb(r.choice([eq, le]), arith(svs + svs[:1])), anchor)]
+        for _j in range(r.choice([1, 2])):
+            parts.append(Comb(Comb(r.choice([eq, le]), arith(r.sample(svs, 1))), arith(r.sample(svs, 1) + ([anchor] if r.random() < 0.3 else []))))
+        bsv = None
+        if r.random() < 0.5:
+            # a boolean schematic variable used twice, its type visible only through the conjunction
+            bsv = SVar('p', BoolType)
+            parts.append(Comb(Comb(Const('equals', TFun(BoolType, BoolType, BoolType)), bsv), bsv))
+            parts.append(bsv)
+        r.shuffle(parts)
+        ill = r.random() < 0.3
+        if ill:
+            parts.insert(r.randrange(len(parts) + 1), r.choice(svs))       # a numeric schematic variable as a proposition
+        body = parts[-1]
+        for pt_ in reversed(parts[:-1]):
+            body = Comb(Comb(conj, pt_), body)
+        return body, ({'n': T} if anchor is n_ else {}), ill
+    for i in range(140 if tier == 'quick' else 2000):
+        t0, ctx, ill = multi_binder() if i % 7 < 4 else multi_svar()
         if not ill:
             try:
                 t0.checked_get_type()
